@@ -1,2 +1,2 @@
-import OdcGeo.Drv.C03
-def main : IO Unit := OdcGeo.driverMain OdcGeo.C03.Drv.run
+import OdcGeo.Drv.C03Top
+def main : IO Unit := OdcGeo.driverMain OdcGeo.C03.Drv.runAll
